@@ -8,6 +8,7 @@ package xrand
 //@ func IntN
 //@   props C04 C18
 //@   binds n
+//@   scope n
 //@   maypanic
 //@   track call.*
 //@   ensures [draws-from-the-namesake|C04,C18] count(call.ANY) == 1 && called(call.IntN) && arg(call.IntN, 0) == n && result == res(call.IntN)
